@@ -120,6 +120,10 @@ def r_syntax_tables(r, prog):
     trims = [(g, c) for g in cl for c in g.calls() if c.name() == 'trim']
     path_ok = any(e.startswith('to_owned(trim(') for e in tr)
     key_ok = any('map(' in e and e.endswith('.0') for e in tr)
+    if not key_ok:
+        # second idiom: args.iter().any(|(key, _)| key.is_empty()) over the collected, already trimmed pairs
+        inner = [g for g in cl if any(c.name() == 'is_empty' and vexpr(g, c.args[0]) == 'arg2.0' for c in g.calls())]
+        key_ok = bool(inner) and any(c.name() == 'any' and 'map(' in vexpr(f, c.args[0]) and not f.blocks[c.bb].get('cleanup') for c in f.calls())
     if path_ok:
         r.ok('the path is trimmed and the missing-path check looks at the trimmed path')
     else:
@@ -182,10 +186,10 @@ def r_arguments_unchanged(r, prog):
     if not enc:
         raise AnchorMissing('EncodeInto for Arguments')
     e = enc[0]
-    es = [c for c in e.calls() if c.name() == 'encode_size']
-    en = [c for c in e.calls() if c.name() == 'encode']
-    if es and len(en) == 2 and vexpr(e, es[0].args[1]) == 'len(arg1.0)' and all(ok_dominates(e, es[0], c.bb) for c in en) and e.dominates(en[0].bb, en[1].bb) \
-            and vexpr(e, en[0].args[1]).endswith('.0') and vexpr(e, en[1].args[1]).endswith('.1') and not [c for c in e.calls() if c.name() in ('rev', 'sort', 'collect')]:
+    import props.c08 as c08
+    tr8 = c08._trace(prog, e)
+    shape = c08.arguments_shape(prog, e, tr8)
+    if shape == c08.ARGUMENTS_SHAPE and not [c for c in e.calls() if c.name() in ('rev', 'sort', 'collect')]:
         r.ok('encoded as size, then key, value of each pair in order')
     else:
         r.finding('arguments-encoding', e.span, 'Arguments is not encoded as encode_size(len) followed by key then value of each pair in order')
